@@ -1,6 +1,7 @@
 package main
 
 import (
+	"strconv"
 	"fmt"
 	"os"
 	"strings"
@@ -205,6 +206,25 @@ func gen(h *lp.H, do func(string) string) {
 					sent[fmt.Sprintf("ack/%d", alias)] = nil
 				}
 				sig += "U"
+			case r == 15 && len(ups) > 0: // an unrelated upstream open / resume is refused by the broker: nothing is
+				// assigned, and the alias field of the refusal (0, or whatever the broker left there) may be a healthy stream's alias
+				victim := ups[rng.Intn(len(ups))]
+				kind := []string{"upopen", "upresume 650"}[rng.Intn(2)]
+				tokA := victim.alias*1000 + tok // an ack that is waiting in the healthy stream's queue when the refusal arrives
+				do(fmt.Sprintf("ack %d %d", victim.alias, tokA))
+				out := do(fmt.Sprintf("req %d %s", caller, kind))
+				if id, ok := issuedID(out); ok {
+					do(fmt.Sprintf("resp %d %sr 651 %d refused", id, strings.Fields(kind)[0], []int{0, victim.alias}[rng.Intn(2)]))
+					do("sync")
+				}
+				tok++
+				tokB := victim.alias*1000 + tok // ... and one that arrives afterwards
+				do(fmt.Sprintf("ack %d %d", victim.alias, tokB))
+				if out := do(fmt.Sprintf("drainack %d", victim.alias)); strings.HasPrefix(out, "items") &&
+					(!strings.Contains(out, strconv.Itoa(tokA)) || !strings.Contains(out, strconv.Itoa(tokB))) {
+					h.Violate(fmt.Sprintf("the broker refused an unrelated upstream open/resume; of the acks %d (queued before) and %d (sent after) for the healthy upstream under alias %d its reader got: %s", tokA, tokB, victim.alias, out))
+				}
+				sig += "R"
 			case r == 1 && (len(ups) == 0 || rng.Intn(4) == 0): // close of a stream id the connection does not know (e.g. a repeated close)
 				kind := []string{"upclose", "downclose"}[rng.Intn(2)]
 				out := do(fmt.Sprintf("req %d %s %d", caller, kind, 700+rng.Intn(3)))
